@@ -480,7 +480,7 @@ def fuzz_fixture():
     return _FZ
 
 
-def feed_datagrams(payloads):
+def feed_datagrams(payloads, greasy=False):
     """in-process: reset TLExport's module state, feed the bystander's datagrams, then the fuzzer's datagrams on another
     4-tuple (and finally on the bystander's own 4-tuple), through tlexport.main's UDP branch.  -> (sig, detail)"""
     import contextlib
@@ -502,7 +502,7 @@ def feed_datagrams(payloads):
         pk = Packet(netio.udp_frame(*a, payload), clock[0] / 1e6)
         if len(pk.tls_data) == 0:
             return
-        if (pk.tls_data[0] & 0x40) >> 6 == 1:
+        if (pk.tls_data[0] & 0x40) >> 6 == 1 or greasy:      # -g: datagrams without the fixed bit are QUIC candidates too (RFC 9287)
             m.handle_quic_packet(pk, keylog, qsess, {})
 
     with contextlib.redirect_stdout(io.StringIO()):
@@ -546,8 +546,10 @@ def evaluate_datagrams(spec):
     """spec: {"hex": fuzzer bytes} or {"payloads": [hex, ...]}"""
     payloads = [bytes.fromhex(h) for h in spec["payloads"]] if "payloads" in spec else split_payloads(bytes.fromhex(spec["hex"]))
     payloads = [p for p in payloads if p] or [b"\x40"]
-    sig, detail = feed_datagrams(payloads)
-    return {"sig": sig, "detail": detail, "nontrivial": len(payloads) >= 2, "labels": ["datagram-fuzz"]}
+    raw = bytes.fromhex(spec["hex"]) if "hex" in spec else b""
+    greasy = bool(spec["g"]) if "g" in spec else bool(raw and raw[-1] & 1)
+    sig, detail = feed_datagrams(payloads, greasy)
+    return {"sig": sig, "detail": detail, "nontrivial": len(payloads) >= 2, "labels": ["datagram-fuzz", "greasy" if greasy else "fixed-bit-rule"]}
 
 
 def datagram_strategy(tier):
@@ -555,7 +557,7 @@ def datagram_strategy(tier):
         0, {"kind": "noise", "what": "udp_struct", "seed": seed, "n": n, "ep": scenario.default_ep(9), "shapes": shapes})]},
         st.integers(0, 1 << 30), st.integers(1, 4), st.lists(st.sampled_from(["rand", "long", "short", "vn", "tiny", "long_trunc"]), min_size=1, max_size=4))
     raw = st.lists(st.binary(min_size=1, max_size=200), min_size=1, max_size=4).map(lambda l: {"payloads": [x.hex() for x in l]})
-    return st.one_of(raw, shaped, shaped)
+    return st.builds(lambda d, g: dict(d, g=g), st.one_of(raw, shaped, shaped), st.booleans())
 
 
 def stages(tier):
